@@ -198,12 +198,10 @@ Qed.
 
 Lemma du_trigger_eq s r e :
   cfg_ucalls s = c_ucalls e -> cfg_ums s = c_ums e -> 0 <= c_ums e ->
-  0 <= sl_de r -> sl_de r + 1 < W32 ->
   window_in_range e (sl_rcnt r) = true ->
-  du_trigger s r = (c_ucalls e <=? sl_de r + 1) && (sl_last r <? b_now s - window_ns e (sl_rcnt r)).
+  du_trigger s r = (c_ucalls e <=? (sl_de r + 1) mod W32) && (sl_last r <? b_now s - window_ns e (sl_rcnt r)).
 Proof.
-  intros H1 H2 H3 H4 H5 H6. unfold du_trigger.
-  rewrite (window_eq s r e H2 H3 H6), H1, Z.mod_small by (split; [lia|exact H5]). reflexivity.
+  intros H1 H2 H3 H6. unfold du_trigger. rewrite (window_eq s r e H2 H3 H6), H1. reflexivity.
 Qed.
 
 (* ================================================================ InvU: detection is enabled by rule *)
